@@ -24,6 +24,10 @@ def truth_of(vals, neg):
     return (vals != [0]) if vals is not None else (0 in (neg or []))
 
 
+def alias_fn(fn):
+    return '@rate_lookup' if re.search(r'rate_loader::', fn.name) else fn.name
+
+
 def product_callers(prog, name):
     return [c for c in prog.callers.get(name, []) if not mir.is_testsupport(c.fn.name) and 'testlib' not in c.fn.name]
 
@@ -53,25 +57,46 @@ def run(prog, rep, tier='quick', config='default'):
             break
         chain.append(callers[0])
         c = callers[0]
-        # is this call guarded by !contains_key(year) ?
-        for (sbb, discr, vals, neg) in c.fn.conditions_at(c.bb):
-            d = mir.provenance(c.fn, discr, follow_all_call_args=True)
-            ck = [x for x in d.calls if x.short == 'contains_key' and re.search(r'HashMap<u32, std::collections::HashMap<time::Date', c.fn.ty.get(x.arg_local(0), ''))]
-            if ck and not truth_of(vals, neg):
-                guard_site = (c, ck[0])
+        # is this call confined to "year not memoised yet" / "year not downloaded in this run"?  Guard edges: the false edge of
+        # contains_key(memo, year), the None edge of memo.get(year), the false edge of fresh_years.contains(year). Every path from
+        # the function entry to the call must use one of them (edge cut), so after a download (memoised and fresh) it is unreachable.
+        g_edges = set()
+        keycall = None
+        MEMO_RX = r'HashMap<u32, std::collections::HashMap<time::Date'
+        for i, b in c.fn.blocks.items():
+            t = b['term']
+            if not t or t['t'] != 'switch':
+                continue
+            d = mir.provenance(c.fn, t['discr'], follow_all_call_args=True)
+            e = c.fn.bool_switch_edges(i)
+            flipped = (len({id(st) for op, st in list(d.binops) + list(d.unops) if op == 'Not'}) % 2 == 1)
+            for x in d.calls:
+                a0ty = c.fn.ty.get(x.arg_local(0), '')
+                if x.short == 'contains_key' and re.search(MEMO_RX, a0ty) and e is not None:
+                    g_edges.add((i, e[0] if flipped else e[1]))
+                    keycall = keycall or x
+                elif x.short == 'contains' and re.search(r'HashSet<u32', a0ty) and e is not None:
+                    g_edges.add((i, e[0] if flipped else e[1]))
+                elif x.short == 'get' and re.search(MEMO_RX, a0ty) and c.fn._is_discr_of(t['discr'], x.dst['l']):
+                    for v, tg in t['targets']:
+                        if v == 0:
+                            g_edges.add((i, tg))
+                            keycall = keycall or x
+        if g_edges and keycall is not None and c.bb not in c.fn.reachable_avoiding_edges(0, g_edges):
+            guard_site = (c, keycall)
         if guard_site:
             break
         cur = prog.owner_of(c.fn)
     rep.extra['download_chain'] = ['%s @%s' % (c.fn.name, c.where()) for c in chain]
     if not guard_site:
         rep.violation('R13a', 'download-guarded-by-year-memo', fn=cur.name, where=chain[-1].where() if chain else '',
-                      detail='no call on the (single) chain to the remote download is confined to the "year not yet loaded in this run" edge of '
-                             'contains_key(year): a year could be downloaded more than once per run')
+                      detail='no call on the (single) chain to the remote download is confined to the "year not memoised yet" / "year not downloaded '
+                             'in this run" edges: a year could be downloaded more than once per run')
     else:
         c, ck = guard_site
         fn = c.fn
         rep.ok('R13a', 'download-guarded-by-year-memo', where=c.where(), fn=fn.name,
-               detail='the chain %s is entered only on the false edge of contains_key(year_rates, year)' % ' <- '.join(short(x.fn.name.split('::{')[0]) for x in chain))
+               detail='the chain %s is entered only over a "year not memoised" or "year not downloaded in this run" edge' % ' <- '.join(short(x.fn.name.split('::{')[0]) for x in chain))
         # after a successful fetch the same key is inserted before any return
         ins = [x for x in fn.calls if x.short == 'insert' and re.search(r'HashMap<u32, std::collections::HashMap<time::Date', fn.ty.get(x.arg_local(0), ''))
                and fn.dominates(c.bb, x.bb)]
@@ -101,6 +126,49 @@ def run(prog, rep, tier='quick', config='default'):
     for c in chain:
         rep.info('R13a-chain', '%s' % c.fn.name, where=c.where(), fn=c.fn.name, detail='link of the download chain')
 
+    # ------------------------------------------------------------------ R13d: the per-run memo is trusted like the cache, not more
+    if guard_site:
+        c, ck = guard_site
+        fn = c.fn
+        MEMO = r'HashMap<u32, std::collections::HashMap<time::Date'
+        DAYMAP = r'HashMap<time::Date, '
+        answers = []
+        for x in fn.calls:
+            if x.short not in ('get', 'index', 'get_key_value') or not re.search(DAYMAP, fn.ty.get(x.arg_local(0), '')) or \
+                    re.search(MEMO, fn.ty.get(x.arg_local(0), '')):
+                continue
+            o = mir.provenance(fn, x.args[0], follow_all_call_args=True)
+            if any(re.search(MEMO, fn.ty.get(l, '')) for l in o.locals) or any(f == 'year_rates' for (_, f) in o.fields):
+                answers.append(x)
+        if not answers:
+            rep.violation('R13d', 'anchor-lost:memo-answer', fn=fn.name, detail='anchor lost: no look-up of the requested date in the memoised year map')
+        else:
+            accept = set()
+            for i, b in fn.blocks.items():
+                e = fn.bool_switch_edges(i)
+                if e is None:
+                    continue
+                d = mir.provenance(fn, b['term']['discr'], follow_all_call_args=True)
+                flipped = (len({id(st) for op, st in list(d.binops) + list(d.unops) if op == 'Not'}) % 2 == 1)
+                true_t, false_t = (e[1], e[0]) if flipped else e
+                for x in d.calls:
+                    if x.short == 'contains_key' and re.search(DAYMAP, fn.ty.get(x.arg_local(0), '')) and not re.search(MEMO, fn.ty.get(x.arg_local(0), '')):
+                        accept.add((i, true_t))
+                    if x.short == 'contains' and re.search(r'HashSet<u32', fn.ty.get(x.arg_local(0), '')):
+                        accept.add((i, true_t))
+            removed = set(accept) | {(c.bb, y) for y in fn.succ.get(c.bb, [])}
+            reach = fn.reachable_avoiding_edges(0, removed)
+            for n, x in enumerate(answers, 1):
+                k = '%s|memo-answer#%d|covers-date-or-downloaded-this-run' % (alias_fn(fn), n)
+                if x.bb in reach:
+                    rep.violation('R13d', k, where=x.where(), fn=fn.name,
+                                  detail='the year map memoised earlier in this run is used for the requested date without going through the loader and '
+                                         'without checking that it contains that date (or that the year was downloaded in this run): a map served from an '
+                                         'older cache answers a newer date by falling back to the preceding day, where a run without cache downloads the real rate')
+                else:
+                    rep.ok('R13d', k, where=x.where(), fn=fn.name,
+                           detail='every path to the look-up passes the loader, a contains_key(date) test on the memoised map, or the downloaded-this-run test')
+
     # ------------------------------------------------------------------ R13b / R13c
     cache_gets = [c for c in prog.all_calls() if c.decl == CACHE_TRAIT + '::get_usd_cad_rates' and 'testlib' not in c.fn.name and
                   c.fn.name.startswith(MOD)]
@@ -113,7 +181,7 @@ def run(prog, rep, tier='quick', config='default'):
         for (sbb, discr, vals, neg) in fn.conditions_at(g.bb):
             d = mir.provenance(fn, discr, follow_all_call_args=True)
             if any(f == 'force_download' for of, f in d.fields):
-                neg_op = any(op == 'Not' for op, _ in d.binops)
+                neg_op = (len({id(st) for op, st in list(d.binops) + list(d.unops) if op == 'Not'}) % 2 == 1)
                 t = truth_of(vals, neg)
                 if neg_op:
                     t = not t
@@ -137,7 +205,7 @@ def run(prog, rep, tier='quick', config='default'):
             if e is None:
                 continue
             d = mir.provenance(fn, b['term']['discr'], follow_all_call_args=True)
-            flipped = any(op == 'Not' for op, _ in d.binops)
+            flipped = (len({id(st) for op, st in list(d.binops) + list(d.unops) if op == 'Not'}) % 2 == 1)
             true_t, false_t = (e[1], e[0]) if flipped else e
             for x in d.calls:
                 if x.short == 'contains_key' and re.search(r'HashMap<time::Date, ', fn.ty.get(x.arg_local(0), '')):
